@@ -245,6 +245,17 @@ class MonoSpeed(Mono):
         for n in range(0, 4):
             for ps in itertools.product(pts, repeat=n):
                 yield {"n": n, "lon": [p[0] for p in ps], "lat": [p[1] for p in ps], "t": [0, 10, 3600][:n], "sus_loose": 100, "sus_strict": 1, "fail_loose": 50000, "fail_strict": 10}
+        # thresholds placed exactly at the real speed of a hop (unit time steps): tightening onto the boundary
+        import math
+
+        from pyvc import libmodels
+
+        for tr in ([(0, 0), (10, 20)], [(10, 20), (10, 20.5), (0, 0)]):
+            for h in range(1, len(tr)):
+                d = libmodels.concrete_geod(tr[h - 1][1], tr[h - 1][0], tr[h][1], tr[h][0])
+                lo_ = math.nextafter(d, 0.0)
+                for sl, ss, fl_, fs in ((d / 2, d / 2, 2 * d, d), (d, lo_, 2 * d, 2 * d), (d / 2, d / 4, d, lo_), (d, d, 2 * d, d), (2 * d, d, 4 * d, d)):
+                    yield {"n": len(tr), "lon": [p[0] for p in tr], "lat": [p[1] for p in tr], "t": list(range(len(tr))), "sus_loose": sl, "sus_strict": ss, "fail_loose": fl_, "fail_strict": fs, "keep": 1}
 
 
 class MonoFlatLine(Mono):
